@@ -126,6 +126,41 @@ def judge(case):
                 bad('add-changed-left', f'base={base!r} now={blk.lines!r}')
             if other_lines is not None and other.lines != other_lines:
                 bad('add-changed-right', f'was={other_lines!r} now={other.lines!r}')
+        # L4b -- observe, change in place, observe again: the string form and the lines stay two views of one state
+        for base in BASES:
+            blk = TextBlock(list(base), header='H')
+
+            def consistent(stage, blk=blk, base=base):
+                want = 'H\n' + ''.join(x + '\n' for x in blk.lines)
+                first, second = str(blk), str(blk)
+                if first != want or second != want:
+                    bad(f'views-inconsistent-{stage}', f'base={base!r} lines={blk.lines!r} str={first!r}')
+                    return False
+                return True
+            if not consistent('fresh'):
+                break
+            blk.append(mk(enc))
+            after_append = list(blk.lines)
+            if after_append[:len(base)] != base or tuple(after_append[len(base):]) not in acceptable:
+                bad('append-after-observation', f'base={base!r} result={after_append!r}')
+            consistent('after-append')
+            blk += mk(enc)
+            if blk.lines[:len(after_append)] != after_append or tuple(blk.lines[len(after_append):]) not in acceptable:
+                bad('iadd-after-observation', f'base={base!r} result={blk.lines!r}')
+            consistent('after-iadd')
+            both = blk + mk(enc)
+            if str(both) != ''.join(x + '\n' for x in both.lines) and str(both) != 'H\n' + ''.join(x + '\n' for x in both.lines):
+                bad('views-inconsistent-sum', f'base={base!r} lines={both.lines!r} str={str(both)!r}')
+            consistent('after-add')
+            before = list(blk.lines)
+            blk.trim()
+            if not R.trim_ok(before, blk.lines, False):
+                bad('trim-after-observation', f'before={before!r} after={blk.lines!r}')
+            consistent('after-trim')
+            blk.lines = ['p', 'q']
+            consistent('after-lines-setter')
+            blk.lines.append('r')
+            consistent('after-lines-append')
         src = mk(enc)
         if isinstance(src, TextBlock):
             snap = list(src.lines)
